@@ -98,8 +98,16 @@ def run(ctx) -> None:
               "operands rebuilt from self._from_partitioned_args() and transform._from_partitioned_args()",
               f"partials are {resolved('array_object_partial')} / {resolved('transform_partial')}", "partials")
     na = resolved("new_axes") or ""
-    ok_axes = na.startswith(f"{tparam}._partition_args(") and "validated_chunks[:len(" in na.replace(" ", "").replace(
-        "validated_chunks[:len", "validated_chunks[:len") and f"{tparam}.ensemble_shape" in na
+    nav = kws.get("new_axes")
+    if isinstance(nav, ast.Name) and nav.id in lazy_assign:
+        nav = lazy_assign[nav.id]
+    ok_axes = False
+    if isinstance(nav, ast.Call) and call_name(nav) == f"{tparam}._partition_args" and nav.args:
+        a0 = nav.args[0]
+        if isinstance(a0, ast.Subscript) and isinstance(a0.slice, ast.Slice) and a0.slice.lower is None and \
+                a0.slice.upper is not None and norm_text(a0.slice.upper) == f"len({tparam}.ensemble_shape)":
+            basev = lazy_assign.get(dotted(a0.value) or "", None)
+            ok_axes = isinstance(basev, ast.Call) and call_name(basev) == "validate_chunks"
     ctx.check(ok_axes, "R-APPLY", f"{at.qualname}:transform-partition", at.loc(mob),
               f"transform partitioned with its own validated chunks ({na})",
               f"transform partition argument is {na}", "new_axes")
